@@ -18,7 +18,7 @@ import psutil
 
 from labtech.exceptions import RunnerError, TaskDiedError
 from labtech.monitor import get_process_info
-from labtech.tasks import get_direct_dependencies
+from labtech.tasks import get_direct_dependencies, get_direct_dependency_instances
 from labtech.types import LabContext, ResultMeta, ResultsMap, Runner, RunnerBackend, Storage, Task, TaskMonitorInfo, TaskResult
 from labtech.utils import LoggerFileProxy, logger
 
@@ -339,7 +339,7 @@ class ProcessRunner(Runner, ABC):
                 use_cache=use_cache,
             ))
 
-            for dependency_task in get_direct_dependencies(task):
+            for dependency_task in get_direct_dependency_instances(task):
                 dependency_task._set_results_map(results_map)
 
             return run_or_load_task(
